@@ -344,6 +344,21 @@ def m3(ck: Check) -> None:
         in_handler = any(isinstance(a, ast.ExceptHandler) for a in f.ancestors(r.node))
         if is_none(r.value):
             ok = in_handler or (len(in_atoms) == 1 and logic.implies(pc, logic.Not(("atom", in_atoms[0]))))
+            if not ok:
+                # `if any(self.network.find_variable(v) is None for v in <query>): return None` -- the explicit form of the
+                # handler: a space that names a variable the network does not have is the space of no node
+                for t_, pol_, b_ in fm.facts(rn):
+                    q_ = logic.quantifier(t_) if pol_ else None
+                    if q_ is not None and q_[0] and isinstance(q_[2], str):
+                        it_ = q_[1]
+                        while isinstance(it_, ast.Call) and isinstance(it_.func, ast.Attribute) and it_.func.attr == "keys" and not it_.args:
+                            it_ = it_.func.value
+                        c_ = q_[3]
+                        unknown = isinstance(c_, ast.Compare) and len(c_.ops) == 1 and isinstance(c_.ops[0], ast.Is) and is_none(c_.comparators[0]) \
+                            and isinstance(c_.left, ast.Call) and callee_name(c_.left) == "find_variable" and len(c_.left.args) == 1 \
+                            and text(c_.left.args[0]) == q_[2] and text(c_.left.func.value) == "self.network"
+                        if unknown and isinstance(it_, ast.Name) and it_.id == q:
+                            ok = True
             ck.ob("M3", fm, r.node, ok, "None only when the key is absent (or the query names an unknown variable)" if ok else
                   f"None returned although the key may be present (path condition {logic.show(pc)})")
         else:
